@@ -396,6 +396,9 @@ def Item.Valid (s : Syntax) : Item → Prop
   | .opt n _ => n ∈ s.opts
   | .file f => f ∉ s.help ∧ f ∉ s.flags ∧ f ∉ s.opts ∧ (s.rejectDash = true → dash f = false)
 
+instance (s : Syntax) (i : Item) : Decidable (i.Valid s) := by
+  cases i <;> simp only [Item.Valid] <;> infer_instance
+
 def files : List Item → List String
   | [] => []
   | .file f :: is => f :: files is
